@@ -402,8 +402,9 @@ def main_run(prop_id: str, tier: str, replay: Optional[str] = None) -> int:
         "wall_s": round(wall, 2),
         "violations": len(vlines),
     }
-    os.makedirs(os.path.join(VERIF, "evidence"), exist_ok=True)
-    with open(os.path.join(VERIF, "evidence", f"{prop_id}.json"), "w") as f:
+    evdir = os.path.join(VERIF, "out", "evidence_scratch") if os.environ.get("VF_NO_EVIDENCE") else os.path.join(VERIF, "evidence")
+    os.makedirs(evdir, exist_ok=True)
+    with open(os.path.join(evdir, f"{prop_id}.json"), "w") as f:
         json.dump(ev, f, indent=1, default=str)
 
     for ln in known_lines:
